@@ -56,7 +56,7 @@ def project(step, fields):
     if fs is None:
         # operations that build the state the rest of the stream runs on are always compared: a scenario whose set-up
         # failed on one side proves nothing
-        if step.op in ("genload", "geninit", "deposit", "setup", "fault", "swapctl", "drybegin", "dryend", "env"):
+        if step.op in ("genload", "geninit", "deposit", "setup", "fault", "swapctl", "drybegin", "dryend", "env", "escrowfund"):
             return step.diff
         return []
     return [k for k in step.diff if k in fs]
